@@ -107,9 +107,9 @@ static void DecodeRegRegMVO(Word Index) {
 }
 
 static void DecodeRegImmMVO(Word Index) {
-    Word    reg;
-    LongInt val;
-    Boolean OK;
+    Word     reg;
+    LargeInt val;
+    Boolean  OK;
 
     PrefixedSDBD = False;
 
@@ -192,10 +192,10 @@ static void DecodeRegReg(Word Index) {
 }
 
 static void DecodeImmReg(Word Index) {
-    LongInt val;
-    Word    regd;
-    Boolean OK;
-    Boolean prefixed = PrefixedSDBD;
+    LargeInt val;
+    Word     regd;
+    Boolean  OK;
+    Boolean  prefixed = PrefixedSDBD;
 
     PrefixedSDBD = False;
 
